@@ -306,7 +306,7 @@ example : Gen.TimeDeltaFloat.to_ticks_float ⟨3, 66⟩ = 1 ∧ Gen.TimeDeltaFlo
 /-! ### T24: the dispatch of `convert_timedelta` as regenerated from `nitypes/time/_conversion.py` -/
 
 section T24
-open Gen.Conversion Gen.TimeDelta Model.Conv Proofs.Conv
+open Gen.Conversion Gen.TimeDelta Model.Conv Proofs.Conv Model.Mixed
 
 /-- units per second of each family: ticks, microseconds, yoctoseconds -/
 def unitsPerSecond : Fam3 → Int | .bt => T | .dt => M | .ht => Y
@@ -369,6 +369,49 @@ theorem gen_convert_round_trips (x y : Int) :
     rw [ht_to_bt_never_overflows y hr, bt_ht_bt x y h]
   · intro hx
     exact ⟨_, (dt_ht_dt x hx).1, (dt_ht_dt x hx).2⟩
+/-- an instant of each family as a numerator over the common denominator 2^64 · 10^24 (seconds since 0001-01-01 UTC) -/
+def instantN : Fam3 → Int → Int
+  | .bt, t => t * Y + HT_EPOCH * T
+  | .dt, p => p * 1000000000000000000 * T
+  | .ht, q => q * T
+/-- one unit of each family over the same denominator -/
+def unitN : Fam3 → Int | .bt => Y | .dt => T * 1000000000000000000 | .ht => T
+/-- the instants each family can hold (bintime: whatever produced the value) -/
+def absInRange : Fam3 → Int → Prop
+  | .bt, _ => True
+  | .dt, p => dtAbsInRange p
+  | .ht, q => htAbsInRange q
+
+/-- **the same headline for absolute times**, over the regenerated dispatch of `convert_datetime`: for all nine pairs a successful
+    conversion is off by strictly less than one unit of the coarser resolution -/
+theorem gen_convert_datetime_error (d s : Fam3) (x y : Int) (hx : absInRange s x)
+    (h : Gen.Conversion.convert_datetime d s x = .ok y) :
+    (instantN s x - instantN d y).natAbs < (max (unitN s) (unitN d)).natAbs := by
+  cases d <;> cases s <;> simp only [Gen.Conversion.convert_datetime, instantN, unitN, absInRange] at h hx ⊢
+  · injection h with h; subst h; unfold Y; omega
+  · -- bt <- dt
+    obtain ⟨t, ht, h1, h2⟩ := dt_to_btdt_floor x hx
+    rw [ht] at h; injection h with h; subst h
+    unfold T M Y HT_EPOCH DT_EPOCH EPOCH_DAYS at *; omega
+  · -- bt <- ht
+    obtain ⟨t, ht, h1, h2⟩ := ht_to_btdt_nearest x hx
+    rw [ht] at h; injection h with h; subst h
+    unfold T Y HT_EPOCH EPOCH_DAYS at *; omega
+  · -- dt <- bt
+    obtain ⟨h1, h2, _⟩ := btdt_to_dt_floor x y h
+    unfold T M Y HT_EPOCH DT_EPOCH EPOCH_DAYS at *; omega
+  · injection h with h; subst h; unfold T; omega
+  · -- dt <- ht
+    injection h with h; subst h
+    have := ht_to_dt_abs_trunc x
+    unfold T at *; omega
+  · -- ht <- bt
+    obtain ⟨h1, h2, _⟩ := btdt_to_ht_floor x y h
+    unfold T Y HT_EPOCH EPOCH_DAYS at *; omega
+  · -- ht <- dt
+    injection h with h; subst h
+    unfold htAbsOfDt T; omega
+  · injection h with h; subst h; unfold T; omega
 end T24
 
 end Props.C04
